@@ -243,6 +243,7 @@ impl<'a> GExec<'a> {
         let msets: Vec<MSet> = sets.iter().map(|c| self.cand(c)).collect();
         let mut must_fail = msets.is_empty();
         let mut either = false;
+        let mut repeated = false;
         let mut seen = std::collections::BTreeSet::new();
         for s in &msets {
             match s.well_formed() {
@@ -252,11 +253,12 @@ impl<'a> GExec<'a> {
             }
             if !seen.insert(s.hash()) {
                 must_fail = true;
+                repeated = true;
                 ctx.count("probe.construction_with_repeated_member");
             }
         }
         let sh = hash_of_sets(&msets);
-        ctx.judged(&["C03"], sh, "construct", if must_fail { "refuse" } else if either { "either" } else { "accept" });
+        ctx.judged(&["C03", "C08"], sh, "construct", if must_fail { "refuse" } else if either { "either" } else { "accept" });
         let addr = Address::generate(&env);
         let mut init = SVec::new(&env);
         for s in &msets {
@@ -279,7 +281,9 @@ impl<'a> GExec<'a> {
         ctx.note(|| format!("construct {} sets must_fail={} either={} -> {}", msets.len(), must_fail, either, ok));
         ctx.count(&format!("op.construct.{}.{}", if must_fail { "refuse" } else { "accept" }, if ok { "ok" } else { "err" }));
         if must_fail {
-            if !ctx.check(!ok, &["C03"], "construct/accepted-bad-initial-sets", || {
+            // a set installed twice also corrupts the epoch numbering the retention window is counted in
+            let tags: &[&'static str] = if repeated { &["C03", "C08"] } else { &["C03"] };
+            if !ctx.check(!ok, tags, "construct/accepted-bad-initial-sets", || {
                 format!("construction with an empty / malformed / repeated initial set list succeeded ({} sets)", msets.len())
             }) {
                 return;
